@@ -596,7 +596,12 @@ def min_real(ck: Check) -> None:
             state = [rng.uniform(-6, 6) for _ in range(sd)] if k > 1 else [0.0] * sd
             st, pa = np.array(state), np.array(params)
             out = np.full(1, np.nan)
-            c.controller(st, 0.0, pa, out)
+            try:
+                c.controller(st, 0.0, pa, out)
+            except IndexError as e:   # only possible under NUMBA_BOUNDSCHECK=1 (the C13 re-run of this stream)
+                ck.spec(False, "minann_oob", f"IndexError in {c.name}/{sd}d (param_dims={pd}): {e}",
+                        {"controller": c.name, "sd": sd, "state": state, "params": params})
+                break
             x = float(out[0])
             case = {"controller": c.name, "sd": sd, "state": state, "params": params, "result": x}
             ck.count(f"min_real_{mode}")
